@@ -13,3 +13,34 @@ package dnsname
 //@ func Sub
 //@   modifies nothing
 //@   ensures result == isSub(zone, name)
+//@
+//@ # ---- C02: canonical (RFC 4034 6.1) name order. canonCmp is the order; CanonicalCompare's label walk is trusted to
+//@ # compute it, the within-label comparison it rests on (compareDecodedFold / decodeOctet) is verified below.
+//@ uninterp canonCmp(a string, b string) int
+//@ func CanonicalCompare
+//@   trusted
+//@   modifies nothing
+//@   ensures result == canonCmp(a, b)
+//@
+//@ # within-label order (RFC 4034 6.3): labels are compared as the octet strings they decode to, each octet ASCII-folded
+//@ # (only 'A'..'Z' fold, by +32); the first differing folded octet decides, a proper prefix sorts first
+//@ spec isDig(c byte) bool := c >= 48 && c <= 57
+//@ spec decOct(s string, i int) byte := ite(s[i] != 92 || i + 1 >= len(s), s[i], ite(isDig(s[i+1]) && i + 3 < len(s) && isDig(s[i+2]) && isDig(s[i+3]), (s[i+1] - 48) * 100 + (s[i+2] - 48) * 10 + (s[i+3] - 48), s[i+1]))
+//@ spec decNext(s string, i int) int := ite(s[i] != 92 || i + 1 >= len(s), i + 1, ite(isDig(s[i+1]) && i + 3 < len(s) && isDig(s[i+2]) && isDig(s[i+3]), i + 4, i + 2))
+//@ spec foldb(b byte) byte := ite(b >= 65 && b <= 90, b + 32, b)
+//@ recspec cmpFold(a string, i int, b string, j int) int := ite(0 <= i && i < len(a) && 0 <= j && j < len(b), ite(foldb(decOct(a, i)) < foldb(decOct(b, j)), -1, ite(foldb(decOct(a, i)) > foldb(decOct(b, j)), 1, cmpFold(a, decNext(a, i), b, decNext(b, j)))), ite(i < len(a), 1, ite(j < len(b), -1, 0)))
+//@
+//@ func isDigit
+//@   arith bv
+//@   modifies nothing
+//@   ensures result == isDig(c)
+//@ func decodeOctet
+//@   arith bv
+//@   requires 0 <= i && i < len(s)
+//@   modifies nothing
+//@   ensures result0 == decOct(s, i) && result1 == decNext(s, i)
+//@ func compareDecodedFold
+//@   arith bv
+//@   modifies nothing
+//@   loop 1 invariant 0 <= i && i <= len(a) && 0 <= j && j <= len(b) && cmpFold(a, i, b, j) == cmpFold(a, 0, b, 0)
+//@   ensures result == cmpFold(a, 0, b, 0)
